@@ -390,6 +390,9 @@ result_t DateTimeDataType::readSymbols(size_t offset, size_t length, const Symbo
           last = symbol;
           continue;
         }
+        if (length == 1 && m_bitCount < 8) {  // truncated time: the remaining bits of the byte belong to other fields
+          symbol = (symbol_t)(symbol & ((1 << m_bitCount) - 1));
+        }
         if (!hasFlag(REQ) && symbol == m_replacement && (!hasFlag(SPE) || last == m_replacement)) {
           if (length == 1 || hasFlag(SPE)) {  // truncated time, minutes since midnight
             *output << NULL_VALUE << ":" << NULL_VALUE;
@@ -413,9 +416,6 @@ result_t DateTimeDataType::readSymbols(size_t offset, size_t length, const Symbo
           *output << setw(2) << dec << setfill('0') << minutesHour;
           symbol = (symbol_t)(minutes % 60);
         } else if (length == 1) {  // truncated time
-          if (m_bitCount < 8) {
-            symbol = (symbol_t)(symbol & ((1 << m_bitCount) - 1));
-          }
           if (i == 0) {
             symbol = (symbol_t)(symbol/(60/m_resolution));  // convert to hours
             index -= incr;  // repeat for minutes
